@@ -65,8 +65,32 @@ class TLCResult:
         return res
 
 
+class _Slot:
+    """Machine-wide limit on concurrently running TLC JVMs (several checks / builders may
+    share the sandbox): one of N lock files is held while a JVM runs."""
+    N = int(os.environ.get("VERIF_TLC_SLOTS", "8"))
+    DIR = "/tmp/verif_tlc_slots"
+
+    def __enter__(self):
+        import fcntl
+        os.makedirs(self.DIR, exist_ok=True)
+        while True:
+            for i in range(self.N):
+                f = open(os.path.join(self.DIR, f"slot{i}"), "w")
+                try:
+                    fcntl.flock(f, fcntl.LOCK_EX | fcntl.LOCK_NB)
+                    self.f = f
+                    return self
+                except OSError:
+                    f.close()
+            time.sleep(0.5)
+
+    def __exit__(self, *a):
+        self.f.close()
+
+
 def run_tlc(module, cfg, *, workers=NCPU, env=None, timeout=3600, simulate=None,
-            depth=None, seed=None, extra=(), heap="8g", tag=None, coverage=False,
+            depth=None, seed=None, extra=(), heap="3g", tag=None, coverage=False,
             continue_=False):
     """Run TLC on spec/<module>.tla with spec/<cfg>.cfg.  Returns TLCResult."""
     tag = tag or f"{module}.{cfg}.{os.getpid()}.{time.time_ns() % 10**9}"
@@ -74,7 +98,8 @@ def run_tlc(module, cfg, *, workers=NCPU, env=None, timeout=3600, simulate=None,
     if meta.exists():
         shutil.rmtree(meta)
     meta.mkdir(parents=True)
-    cmd = ["java", "-XX:+UseParallelGC", f"-Xmx{heap}", f"-DTLA-Library={SPEC}",
+    cmd = ["java", "-XX:+UseParallelGC", "-XX:ParallelGCThreads=4", f"-Xmx{heap}",
+           f"-DTLA-Library={SPEC}",
            "-cp", JAR, "tlc2.TLC", "-workers", str(workers), "-metadir", str(meta),
            "-noGenerateSpecTE", "-config", str(SPEC / f"{cfg}.cfg")]
     if simulate:
@@ -92,12 +117,12 @@ def run_tlc(module, cfg, *, workers=NCPU, env=None, timeout=3600, simulate=None,
     e.update(env or {})
     t0 = time.time()
     try:
-        p = subprocess.run(cmd, cwd=str(meta), env=e, capture_output=True, text=True,
-                           timeout=timeout)
+        with _Slot():
+            t0 = time.time()
+            p = subprocess.run(cmd, cwd=str(meta), env=e, capture_output=True, text=True,
+                               timeout=timeout)
     except subprocess.TimeoutExpired as exc:
         raise MachineryError(f"TLC timed out after {timeout}s on {module}/{cfg}") from exc
-    finally:
-        pass
     res = TLCResult(p.stdout + p.stderr, p.returncode, time.time() - t0)
     shutil.rmtree(meta, ignore_errors=True)
     return res
@@ -125,7 +150,7 @@ def write_shards(records, dirpath, prefix, shard_size=20000):
 
 
 def judge_shards(module, cfg, shard_paths, *, jvms=4, workers=4, env=None, timeout=3600,
-                 heap="6g"):
+                 heap="2500m"):
     """Run the judging spec once per shard (several JVMs at a time).  Returns
     (verdicts, states, transitions): verdicts are the JSON values printed."""
     verdicts, states, trans = [], 0, 0
